@@ -2,13 +2,13 @@ package sx
 
 import (
 	"fmt"
-	"sort"
-	"time"
 	"go/token"
 	"go/types"
 	"math"
 	"math/bits"
+	"sort"
 	"strings"
+	"time"
 
 	"golang.org/x/tools/go/ssa"
 )
